@@ -1,6 +1,6 @@
 // C18 — equality, hashing and ordering are mutually consistent.
 //
-// Bounded-exhaustive over a fixed set of ~130 values of all built-in kinds (numbers of every kind at the
+// Bounded-exhaustive over a fixed set of ~175 (thorough ~250) values of all built-in kinds (numbers of every kind at the
 // 2^24 / 2^53 / 2^63 / 2^64 boundaries, signed zeros, infinities, NaN; strings, chars, symbols, nil/bools,
 // lists, tuples, maps, records, sets, the 8 range kinds, dates/times/spans, regexes, pairs, objects), built
 // by evaluating Elk expressions (plus a few Go-API constructions for values that have no literal):
@@ -9,6 +9,7 @@
 //   - all triples of non-NaN numbers: `<`, `<=` and `=~` are transitive;
 //   - the same laws on the results printed by the VM for the coercible kinds (Int, Float, BigFloat) and the
 //     same-kind fixed-width pairs, with statically typed operands (typed opcodes, statically bound calls).
+//
 // Seam: vm.Equal / vm.LaxEqual / vm.Hash / vm.LessThan ... / value.CompareVal with a real *vm.Thread.
 package main
 
@@ -49,7 +50,7 @@ var numericDefs = []vdef{
 	e("9007199254740991"), e("9007199254740992"), e("9007199254740993"), e("9007199254740994"),
 	e("-9007199254740993"),
 	e("9223372036854775807"), e("-9223372036854775808"),
-	et("9223372036854775806"), et("-9007199254740992"), et("4611686018427387904"),
+	e("9223372036854775806"), et("-9007199254740992"), et("4611686018427387904"),
 	// Int, big
 	e("9223372036854775808"), e("9223372036854775809"), e("18446744073709551615"), e("18446744073709551616"), e("18446744073709551617"),
 	e("-9223372036854775809"), e("1267650600228229401496703205376"), e("1267650600228229401496703205377"),
@@ -80,6 +81,19 @@ var numericDefs = []vdef{
 	e("1u64"), e("9007199254740993u64"), e("18446744073709551615u64"), e("9223372036854775808u64"),
 	e("1u"), e("18446744073709551615u"),
 	et("0i8"), et("0u8"), et("0i64"), et("0u64"), et("-9007199254740993i64"), et("9223372036854775807u64"),
+	// thorough: both sides of every boundary in every kind that can hold the value
+	et("16777215"), et("16777218"), et("-16777217"), et("-16777216"),
+	et("16777215.0"), et("16777218.0"), et("-16777216.0"),
+	et("16777215.0f32"), et("16777218.0f32"), et("-16777216.0f32"), et("16777217.0f64"), et("16777216.0f64"),
+	et("16777216i32"), et("16777216u32"), et("16777216i64"), et("16777217i64"), et("16777216u64"), et("16777217u64"),
+	et("9007199254740992i64"), et("9007199254740994i64"), et("9007199254740992u64"), et("9007199254740994u64"), et("9007199254740993u"),
+	et("9007199254740994.0f64"), et("9007199254740991.0"), et("9007199254740991.0bf"), et("9007199254740994bf"), et("-9007199254740993bf"),
+	e("9223372036854775807bf"), et("9223372036854775809bf"), et("18446744073709551616bf"), et("18446744073709551615bf"),
+	et("9223372036854775806i64"), et("-9223372036854775807i64"), et("18446744073709551614u64"), et("9223372036854775809u64"),
+	et("9223372036854775807u"), et("9223372036854775808u"),
+	et("-18446744073709551616"), et("-18446744073709551616.0"), et("-9223372036854775809.0bf"),
+	et("2.0"), et("2.0bf"), et("2i8"), et("2u8"), et("2.0f32"), et("2.0f64"), et("-1.0bf"), et("-1.0f64"), et("-1.0f32"), et("-1i16"), et("-1i32"),
+	et("127i8"), et("-128.0"), et("255u8"), et("255"), et("255.0"), et("32767i16"), et("65535u16"), et("2147483647i32"), et("4294967295u32"), et("4294967295"), et("4294967295.0"),
 }
 
 var otherDefs = []vdef{
@@ -112,7 +126,7 @@ type val struct {
 	v, copy value.Value // two independently constructed instances
 	class   string      // class name without Std::
 	numeric bool
-	nan     bool     // NaN, or a collection containing NaN
+	nan     bool       // NaN, or a collection containing NaN
 	exact   *big.Float // exact mathematical value of a non-NaN number (may be ±Inf)
 }
 
@@ -344,11 +358,15 @@ func boolObs(f func() (value.Value, value.Value)) obs {
 	return obs{ok: true, b: value.Truthy(v)}
 }
 
-func opEq(a, b value.Value) obs { return boolObs(func() (value.Value, value.Value) { return vm.Equal(th, a, b) }) }
+func opEq(a, b value.Value) obs {
+	return boolObs(func() (value.Value, value.Value) { return vm.Equal(th, a, b) })
+}
 func opLax(a, b value.Value) obs {
 	return boolObs(func() (value.Value, value.Value) { return vm.LaxEqual(th, a, b) })
 }
-func opLt(a, b value.Value) obs { return boolObs(func() (value.Value, value.Value) { return vm.LessThan(th, a, b) }) }
+func opLt(a, b value.Value) obs {
+	return boolObs(func() (value.Value, value.Value) { return vm.LessThan(th, a, b) })
+}
 func opLe(a, b value.Value) obs {
 	return boolObs(func() (value.Value, value.Value) { return vm.LessThanEqual(th, a, b) })
 }
@@ -498,7 +516,7 @@ func main() {
 	engine.Main(&engine.Spec{
 		Prop:  "C18",
 		Level: "exploration",
-		Rule: "a fixed set of values of all built-in kinds (quick ~95 numbers + ~95 others, thorough ~115 + ~95), each constructed twice by evaluating its Elk expression (Go API for NaN/Inf BigFloats and invalid UTF-8 strings); " +
+		Rule: "a fixed set of values of all built-in kinds (quick ~90 numbers + ~85 others, thorough ~170 + ~85), each constructed twice by evaluating its Elk expression (Go API for NaN/Inf BigFloats and invalid UTF-8 strings); " +
 			"all ordered pairs (including each value with itself and with its independently constructed copy): == symmetric, reflexive unless NaN is involved, a == b implies vm.Hash(a) == vm.Hash(b); " +
 			"all ordered pairs of non-NaN numbers: < <= > >= <=> =~ agree with each other and with the converse pair wherever both are defined (no error); " +
 			"all ordered triples of non-NaN numbers: < , <= and =~ transitive; the same laws on VM-printed results for Int/Float/BigFloat pairs and same-kind fixed-width pairs with statically typed operands; " +
@@ -639,7 +657,9 @@ func nontrivialPair(a, b *val) bool {
 	return a.class != b.class || a.v.IsReference() != b.v.IsReference() || ulpClose(a, b)
 }
 
-// numPairCase: agreement of the six operators on (a, b) and with the converse pair (b, a).
+// numPairCase: for the unordered pair {a, b}: the answers of < <= > >= <=> =~ on (a, b) and on (b, a) must all
+// describe one and the same relation between a and b. When they do not, the answers that deviate from the relation
+// most of them describe (ties broken by exact arithmetic) are named in the signature.
 func numPairCase(c *engine.Ctx, i int) {
 	a := numbers[i]
 	c.Case(fmt.Sprintf("num-pairs/%03d %s", i, a.label), func(r *engine.R) {
@@ -648,110 +668,115 @@ func numPairCase(c *engine.Ctx, i int) {
 			return
 		}
 		t := tables()
-		for j, b := range numbers {
+		for j := i; j < len(numbers); j++ {
+			b := numbers[j]
 			if b.nan {
 				continue
 			}
-			r.Eval(6)
+			r.Eval(12)
 			if nontrivialPair(a, b) {
 				r.NT(1)
 			}
 			desc := fmt.Sprintf("a = %s (%s), b = %s (%s)", a.label, a.class, b.label, b.class)
 			fp := famPair(a, b)
-			lt, le, gt, ge, lax, cmp := t.lt[i][j], t.le[i][j], t.gt[i][j], t.ge[i][j], t.lax[i][j], t.cmp[i][j]
-			for _, o := range []struct {
-				n string
-				o obs
-			}{{"<", lt}, {"<=", le}, {">", gt}, {">=", ge}, {"=~", lax}, {"<=>", cmp}} {
-				if strings.HasPrefix(o.o.fail, "go-panic") {
-					r.Violation(fmt.Sprintf("%s %s kinds=%s", o.n, o.o.fail, fp), desc, desc)
-				}
+			type ans struct {
+				op  string
+				rev bool // asked as (b, a)
+				o   obs
+			}
+			answers := []ans{
+				{"<", false, t.lt[i][j]}, {"<=", false, t.le[i][j]}, {">", false, t.gt[i][j]}, {">=", false, t.ge[i][j]}, {"=~", false, t.lax[i][j]}, {"<=>", false, t.cmp[i][j]},
+				{"<", true, t.lt[j][i]}, {"<=", true, t.le[j][i]}, {">", true, t.gt[j][i]}, {">=", true, t.ge[j][i]}, {"=~", true, t.lax[j][i]}, {"<=>", true, t.cmp[j][i]},
 			}
 			defined := 0
-			for _, o := range []obs{lt, le, gt, ge, cmp} {
-				if o.ok {
+			for _, x := range answers {
+				if strings.HasPrefix(x.o.fail, "go-panic") {
+					r.Violation(fmt.Sprintf("%s %s %s kinds=%s", opName[x.op], x.op, x.o.fail, fp), desc, desc)
+				}
+				if x.o.ok {
 					defined++
 				}
 			}
 			if defined == 0 {
-				r.Outcome("ordering undefined between these kinds")
+				r.Outcome("no operator defined between these kinds")
+				continue
 			}
-			// the signature names the operator whose answer for this pair (or the converse pair) deviates from exact
-			// arithmetic; the violated law is in the detail
-			got := map[string]obs{"<": lt, "<=": le, ">": gt, ">=": ge, "=~": lax, "<=>": cmp}
-			conv := map[string]obs{"<": t.lt[j][i], "<=": t.le[j][i], ">": t.gt[j][i], ">=": t.ge[j][i], "=~": t.lax[j][i], "<=>": t.cmp[j][i]}
-			viol := func(law, detail string, ops ...string) {
-				var bad []string
-				for _, op := range ops {
-					if w, how := wrongAnswer(op, got[op], a, b); w {
-						bad = append(bad, how)
-					} else if w, how := wrongAnswer(op, conv[op], b, a); w {
-						bad = append(bad, how)
+			// does answer x agree with "a rel b" (rel = -1, 0, 1)?
+			agrees := func(x ans, rel int) bool {
+				if x.rev {
+					rel = -rel
+				}
+				switch x.op {
+				case "<":
+					return x.o.b == (rel < 0)
+				case "<=":
+					return x.o.b == (rel <= 0)
+				case ">":
+					return x.o.b == (rel > 0)
+				case ">=":
+					return x.o.b == (rel >= 0)
+				case "=~":
+					return x.o.b == (rel == 0)
+				}
+				return !x.o.isNil && x.o.n == rel
+			}
+			exact := exactCmp(a, b)
+			best, bestScore := 0, -1
+			for _, rel := range []int{exact, 0, -1, 1} { // exact first: it wins ties
+				score := 0
+				for _, x := range answers {
+					if x.o.ok && agrees(x, rel) {
+						score++
 					}
 				}
-				sig := fmt.Sprintf("disagree %s kinds=%s", law, fp)
-				if len(bad) > 0 {
-					sig = fmt.Sprintf("inconsistent: %s between %s", strings.Join(bad, ", "), fp)
-				}
-				r.Violation(sig, desc+": violated law: "+law+": "+detail+exactNote(a, b), desc)
-			}
-			if cmp.ok {
-				if cmp.isNil {
-					viol("<=> nil for non-NaN numbers", "a <=> b is nil", "<=>")
-				} else {
-					if cmp.n < -1 || cmp.n > 1 {
-						viol("<=> range", fmt.Sprintf("a <=> b = %d", cmp.n), "<=>")
-					}
-					r.Outcome(fmt.Sprintf("<=> %d", cmp.n))
-					if lt.ok && lt.b != (cmp.n < 0) {
-						viol("< vs <=>", fmt.Sprintf("a < b is %v but a <=> b is %d", lt.b, cmp.n), "<", "<=>")
-					}
-					if le.ok && le.b != (cmp.n <= 0) {
-						viol("<= vs <=>", fmt.Sprintf("a <= b is %v but a <=> b is %d", le.b, cmp.n), "<=", "<=>")
-					}
-					if gt.ok && gt.b != (cmp.n > 0) {
-						viol("> vs <=>", fmt.Sprintf("a > b is %v but a <=> b is %d", gt.b, cmp.n), ">", "<=>")
-					}
-					if ge.ok && ge.b != (cmp.n >= 0) {
-						viol(">= vs <=>", fmt.Sprintf("a >= b is %v but a <=> b is %d", ge.b, cmp.n), ">=", "<=>")
-					}
-					if lax.ok && lax.b != (cmp.n == 0) {
-						viol("=~ vs <=>", fmt.Sprintf("a =~ b is %v but a <=> b is %d", lax.b, cmp.n), "=~", "<=>")
-					}
+				if score > bestScore {
+					best, bestScore = rel, score
 				}
 			}
-			if lt.ok && gt.ok && lax.ok {
-				cnt := 0
-				for _, x := range []bool{lt.b, gt.b, lax.b} {
-					if x {
-						cnt++
+			if bestScore == defined {
+				r.Outcome(fmt.Sprintf("consistent: %d operators defined, relation %d", defined, best))
+				continue
+			}
+			seen := map[string]bool{}
+			var culprits, lines []string
+			for _, x := range answers {
+				if !x.o.ok {
+					continue
+				}
+				got := fmt.Sprint(x.o.b)
+				if x.op == "<=>" {
+					got = fmt.Sprint(x.o.n)
+					if x.o.isNil {
+						got = "nil"
 					}
 				}
-				if cnt != 1 {
-					viol("trichotomy < =~ >", fmt.Sprintf("a < b: %v, a =~ b: %v, a > b: %v (exactly one must hold)", lt.b, lax.b, gt.b), "<", "=~", ">")
+				expr := "a " + x.op + " b"
+				if x.rev {
+					expr = "b " + x.op + " a"
 				}
+				mark := ""
+				if !agrees(x, best) {
+					mark = "   <-- deviates"
+					k := fmt.Sprintf("%s %s says %s", opName[x.op], x.op, got)
+					if x.op == "<=>" {
+						k = "cmp <=> deviates"
+						if x.o.isNil {
+							k = "cmp <=> is nil"
+						}
+					}
+					if !seen[k] {
+						seen[k] = true
+						culprits = append(culprits, k)
+					}
+				}
+				lines = append(lines, fmt.Sprintf("  %s = %s%s", expr, got, mark))
 			}
-			if le.ok && lt.ok && lax.ok && le.b != (lt.b || lax.b) {
-				viol("<= vs < or =~", fmt.Sprintf("a <= b: %v, a < b: %v, a =~ b: %v", le.b, lt.b, lax.b), "<=", "<", "=~")
-			}
-			if ge.ok && gt.ok && lax.ok && ge.b != (gt.b || lax.b) {
-				viol(">= vs > or =~", fmt.Sprintf("a >= b: %v, a > b: %v, a =~ b: %v", ge.b, gt.b, lax.b), ">=", ">", "=~")
-			}
-			// converse pair
-			if o := t.gt[j][i]; lt.ok && o.ok && lt.b != o.b {
-				viol("a < b vs b > a", fmt.Sprintf("a < b: %v, b > a: %v", lt.b, o.b), "<", ">")
-			}
-			if o := t.ge[j][i]; le.ok && o.ok && le.b != o.b {
-				viol("a <= b vs b >= a", fmt.Sprintf("a <= b: %v, b >= a: %v", le.b, o.b), "<=", ">=")
-			}
-			if o := t.lax[j][i]; lax.ok && o.ok && lax.b != o.b {
-				viol("a =~ b vs b =~ a", fmt.Sprintf("a =~ b: %v, b =~ a: %v", lax.b, o.b), "=~")
-			}
-			if o := t.cmp[j][i]; cmp.ok && o.ok && !cmp.isNil && !o.isNil && cmp.n != -o.n {
-				viol("a <=> b vs b <=> a", fmt.Sprintf("a <=> b: %d, b <=> a: %d", cmp.n, o.n), "<=>")
-			}
+			sort.Strings(culprits)
+			rels := map[int]string{-1: "a < b", 0: "a equals b", 1: "a > b"}
+			r.Violation(fmt.Sprintf("inconsistent: %s between %s", strings.Join(culprits, ", "), fp),
+				fmt.Sprintf("%s: the operators do not describe one relation; most describe %q:\n%s\n%s", desc, rels[best], strings.Join(lines, "\n"), exactNote(a, b)), desc)
 		}
-		r.Sample(fmt.Sprintf("%s compared with all %d numbers by < <= > >= <=> =~", a.label, len(numbers)))
+		r.Sample(fmt.Sprintf("%s with every number b: a<b a<=b a>b a>=b a=~b a<=>b and the same on (b, a)", a.label))
 	})
 }
 
@@ -785,11 +810,11 @@ func wrongAnswer(op string, o obs, a, b *val) (bool, string) {
 		want = c == 0
 	case "<=>":
 		if o.isNil {
-			return true, "cmp <=> is nil for ordered numbers"
+			return true, "cmp <=> is nil"
 		}
-		return o.n != c, fmt.Sprintf("cmp <=> is %d but exactly %d", o.n, c)
+		return o.n != c, "cmp <=> deviates"
 	}
-	return o.b != want, fmt.Sprintf("%s %s is %v but exactly %v", opName[op], op, o.b, want)
+	return o.b != want, fmt.Sprintf("%s %s says %v", opName[op], op, o.b)
 }
 
 // inexact names the first pair whose answer to op deviates from exact arithmetic.
